@@ -42,19 +42,26 @@ func (r RawTime) Value() (t time.Time, valid bool) {
 // RawDeltaSeconds is a string that represents a delta time in seconds,
 // as defined in §1.2.2 of RFC 9111.
 //
-// This implementation supports values up to the maximum range of int64
-// (9223372036854775807 seconds). Values exceeding 2147483648 (2^31) are
-// valid and will not be capped, as allowed by the RFC, which permits
+// Values exceeding 2147483648 (2^31) are valid and are not capped at that
+// value; values too large to be represented as a [time.Duration] saturate at
+// the greatest representable duration, as allowed by the RFC, which permits
 // using the greatest positive integer the implementation can represent.
 type RawDeltaSeconds string
 
 func (r RawDeltaSeconds) Value() (dur time.Duration, valid bool) {
-	if len(r) == 0 || r[0] == '-' {
+	if len(r) == 0 {
 		return
 	}
+	for i := range len(r) {
+		if r[i] < '0' || r[i] > '9' {
+			return // delta-seconds = 1*DIGIT
+		}
+	}
 	seconds, err := strconv.ParseInt(string(r), 10, 64)
-	if err != nil {
-		return
+	if err != nil || seconds > int64(maxDuration/time.Second) {
+		// RFC 9111 §1.2.2: a value too large to represent is treated as the
+		// greatest positive integer the implementation can represent.
+		return maxDuration, true
 	}
 
 	return time.Duration(seconds) * time.Second, true
